@@ -153,7 +153,11 @@ type manualPanic struct{ n int }
 func (i *inst) apply(op int) {
 	i.armed, i.armNext = i.armNext, false
 	i.injected = false
-	i.applyOp(op)
+	if pv, panicked := guard(func() { i.applyOp(op) }); panicked {
+		i.armed = false
+		i.broken = true
+		i.fail("unexpected panic", "%s panicked with a value the program did not throw: %v", opName[op], pv)
+	}
 	i.armed = false
 }
 
@@ -334,7 +338,11 @@ func (i *inst) release() {
 	i.env.Rec.Fault = nil
 	if !i.done {
 		i.done = true
-		if err := i.tx.Rollback().Error; err != nil {
+		if _, panicked := guard(func() {
+			if err := i.tx.Rollback().Error; err != nil {
+				i.broken = true
+			}
+		}); panicked {
 			i.broken = true
 		}
 	}
@@ -355,6 +363,9 @@ func (i *inst) release() {
 type mworker struct {
 	cfg, dial int
 	der       int
+	// which call follows a failed Begin on the failed handle: 0 write,
+	// 1 Commit, 2 Rollback, 3 all three in this order
+	afterFailedBegin int
 	env       *h.Env
 	replays   int64
 }
@@ -375,7 +386,13 @@ func (w *mworker) start(faultBegin int) *inst {
 	i.m.cur = []string{}
 	w.env.Rec.Fault = i.hook
 	i.armed = faultBegin > 0
-	i.tx = w.env.DB.Begin()
+	if pv, panicked := guard(func() { i.tx = w.env.DB.Begin() }); panicked {
+		i.armed = false
+		i.done, i.broken = true, true
+		i.everInjected = i.everInjected || faultBegin > 0
+		i.fail("unexpected panic", "Begin panicked: %v", pv)
+		return i
+	}
 	i.armed = false
 	if i.injected {
 		i.done = true // no transaction: the sequence ends here
@@ -384,7 +401,34 @@ func (w *mworker) start(faultBegin int) *inst {
 			i.fail("BEGIN fault not returned", "Begin().Error = %v", i.tx.Error)
 			return i
 		}
-		i.tx.Rollback() // what a careful caller may still do with the failed handle
+		// what a caller may still do with the handle of a failed Begin: every
+		// call must come back with an error, none may panic
+		type call struct {
+			name string
+			f    func() error
+		}
+		calls := []call{
+			{"write", func() error { return derive(i.tx, i.der).Create(&Row{K: "k0", V: 1}).Error }},
+			{"Commit", func() error { return i.tx.Commit().Error }},
+			{"Rollback", func() error { return i.tx.Rollback().Error }},
+		}
+		if w.afterFailedBegin < len(calls) {
+			calls = calls[w.afterFailedBegin : w.afterFailedBegin+1]
+		}
+		for _, c := range calls {
+			var err error
+			pv, panicked := guard(func() { err = c.f() })
+			i.log = append(i.log, fmt.Sprintf("   %s on the handle of the failed Begin: err=%v panic=%v", c.name, err, pv))
+			switch {
+			case panicked:
+				i.broken = true
+				i.fail("unexpected panic", "%s on the handle of a failed Begin panicked: %v", c.name, pv)
+				return i
+			case err == nil:
+				i.fail("no error from a failed transaction handle", "%s on the handle of a failed Begin returned nil", c.name)
+				return i
+			}
+		}
 		if l := w.env.Leaks(); l != "" {
 			i.broken = true
 			i.fail("leak", "after a failed Begin: %s", l)
@@ -498,6 +542,7 @@ type ManualCase struct {
 	Cfg      int    `json:"config_bits"`
 	Dial     int    `json:"dialector"`
 	Derive   int    `json:"derive,omitempty"` // writes go through derive(tx, kind), see deriveName
+	AfterFailedBegin int `json:"after_failed_begin,omitempty"` // ops empty + fault: 0 write, 1 Commit, 2 Rollback, 3 all three on the failed handle
 	Fault    int    `json:"fault_point_in_last_op"` // 0 = none, k = k-th fault point of the last operation (of Begin if ops is empty)
 	Readable string `json:"readable,omitempty"`
 }
@@ -538,6 +583,17 @@ type stepResult struct {
 }
 
 func (w *mworker) step(path []int, fault int) (r stepResult) {
+	defer func() {
+		// last line of defence: nothing inside gorm may take the run down
+		if p := recover(); p != nil {
+			r.kind, r.detail = "unexpected panic", fmt.Sprintf("while executing or probing the sequence: %v", p)
+			r.injected = r.injected || fault > 0
+			if w.env != nil {
+				w.env.Close()
+				w.env = nil
+			}
+		}
+	}()
 	i := w.run(path, fault)
 	r.kind, r.detail, r.log = i.kind, i.detail, i.log
 	msig := i.m.sig()
@@ -603,15 +659,19 @@ func bfs(cfg, dial, der, depth int, deadline time.Time) *manualResult {
 			}
 			res.faulted++
 			if r.kind != "" {
-				mc := ManualCase{Part: "manual", Ops: path, Cfg: cfg, Dial: dial, Derive: der, Fault: k, Readable: fmt.Sprintf("%s  [fault at point %d of the last operation]", opsString(path), k)}
+				mc := ManualCase{Part: "manual", Ops: path, Cfg: cfg, Dial: dial, Derive: der, AfterFailedBegin: w.afterFailedBegin, Fault: k, Readable: fmt.Sprintf("%s  [fault at point %d of the last operation]", opsString(path), k)}
 				res.viol = append(res.viol, manualViolation{mc, r.kind, r.detail, r.log})
 			}
 		}
 		return true
 	}
-	if !faultVariants(nil) { // Begin itself
-		return res
+	for after := 0; after < 4; after++ { // Begin itself, then each use of the failed handle
+		w.afterFailedBegin = after
+		if !faultVariants(nil) {
+			return res
+		}
 	}
+	w.afterFailedBegin = 3
 	seen := map[string]bool{rootSig: true}
 	frontier := []state{{}}
 	res.states = 1
